@@ -363,14 +363,13 @@ class ExprMixin:
                 return [(st, self.const_val(f(int(ca), int(cb))))]
             raise Unsupported(f"integer operator {type(op).__name__}", node, self.path)
         if ka == "set" and kb == "set":
-            sa, sb = a.z, self.coerce(b, a.t).z
-            x = z3.Const(fresh_name("x"), self.sort(a.t[1]))
+            sa, sb = a.z, self.coerce(self.adapt_empty(b, a.t), a.t).z
             if isinstance(op, ast.BitOr):
-                return [(st, Val(a.t, z3.Lambda([x], z3.Or(z3.Select(sa, x), z3.Select(sb, x)))))]
+                return [(st, Val(a.t, z3.SetUnion(sa, sb)))]
             if isinstance(op, ast.BitAnd):
-                return [(st, Val(a.t, z3.Lambda([x], z3.And(z3.Select(sa, x), z3.Select(sb, x)))))]
+                return [(st, Val(a.t, z3.SetIntersect(sa, sb)))]
             if isinstance(op, ast.Sub):
-                return [(st, Val(a.t, z3.Lambda([x], z3.And(z3.Select(sa, x), z3.Not(z3.Select(sb, x))))))]
+                return [(st, Val(a.t, z3.SetDifference(sa, sb)))]
         if ka == "str" and kb == "str" and isinstance(op, ast.Add):
             conc = a.conc + b.conc if a.conc is not None and b.conc is not None else None
             return [(st, Val(STR, z3.Concat(a.z, b.z), conc=conc))]
@@ -557,6 +556,13 @@ class ExprMixin:
                     # the attribute is looked up on the dynamic class
                     return [(st, Val(INT, self.classvar_fn(attr)(self.dtype_fn(base.z))))]
                 return [(st, self.const_val(val))]
+            if d is not None and getattr(d, "cinfo", None) is not None:
+                # declared on the generated subclasses only (e.g. type_hash): looked up on the dynamic class
+                for sub in self.subclasses_of(cls):
+                    sd = self.class_decl(sub)
+                    if sd is not None and getattr(sd, "cinfo", None) and isinstance(sd.cinfo["classvars"].get(attr), int):
+                        self.lib.use(f"class attribute {attr} is present on every generated message class (v2 definitions)")
+                        return [(st, Val(INT, self.classvar_fn(attr)(self.dtype_fn(base.z))))]
             try:
                 return self.lib.class_attr(cls, attr, st, node)
             except Unsupported:
